@@ -584,3 +584,81 @@ def forward_taint(prog: Program, seeds: Iterable[Tuple[FuncInfo, str]], any_expr
                         tainted[target.qualname].add(param)
                         work.append((target, param))
     return tainted
+
+
+def single_valued_flags(func: FuncInfo) -> List[Tuple[ast.Name, object]]:
+    """Branch conditions that test a local which can hold one constant only: every binding of the
+    local in the function is the same constant (no parameter, loop target, unpacking, augmented
+    assignment, ``with``/``except`` target or declaration rebinding it).  Such a branch is decided
+    before the program runs: whatever the flag was meant to record is never recorded."""
+    assigns: Dict[str, List[ast.AST]] = {}
+    other: Set[str] = set(func.params)
+    for sub in walk_local(func.node):
+        if isinstance(sub, (ast.Assign, ast.AnnAssign)):
+            targets = sub.targets if isinstance(sub, ast.Assign) else [sub.target]
+            for target in targets:
+                if isinstance(target, ast.Name):
+                    if sub.value is not None:
+                        assigns.setdefault(target.id, []).append(sub.value)
+                else:
+                    other.update(e.id for e in ast.walk(target) if isinstance(e, ast.Name) and isinstance(e.ctx, ast.Store))
+        elif isinstance(sub, ast.AugAssign) and isinstance(sub.target, ast.Name):
+            other.add(sub.target.id)
+        elif isinstance(sub, (ast.For, ast.AsyncFor, ast.comprehension)):
+            other.update(e.id for e in ast.walk(sub.target) if isinstance(e, ast.Name))
+        elif isinstance(sub, ast.NamedExpr):
+            other.add(sub.target.id)
+        elif isinstance(sub, (ast.With, ast.AsyncWith)):
+            for item in sub.items:
+                if item.optional_vars is not None:
+                    other.update(e.id for e in ast.walk(item.optional_vars) if isinstance(e, ast.Name))
+        elif isinstance(sub, ast.ExceptHandler) and sub.name:
+            other.add(sub.name)
+        elif isinstance(sub, (ast.Global, ast.Nonlocal)):
+            other.update(sub.names)
+        elif isinstance(sub, (ast.FunctionDef, ast.AsyncFunctionDef)) and sub is not func.node:
+            # a nested function may rebind through nonlocal
+            other.update(name for inner in ast.walk(sub) if isinstance(inner, ast.Nonlocal) for name in inner.names)
+
+    def condition_names(test: ast.AST) -> Iterator[ast.Name]:
+        if isinstance(test, ast.Name):
+            yield test
+        elif isinstance(test, ast.UnaryOp) and isinstance(test.op, ast.Not):
+            yield from condition_names(test.operand)
+        elif isinstance(test, ast.BoolOp):
+            for value in test.values:
+                yield from condition_names(value)
+
+    found: List[Tuple[ast.Name, object]] = []
+    # boolean locals that are used at all (returned, passed on, logged) although they can hold one value only
+    for name_id, values in assigns.items():
+        if name_id in other or not all(isinstance(v, ast.Constant) and isinstance(v.value, bool) for v in values):  # type: ignore[attr-defined]
+            continue
+        loads = [s for s in walk_local(func.node) if isinstance(s, ast.Name) and s.id == name_id and isinstance(s.ctx, ast.Load)]
+        if loads:
+            constant = len({v.value for v in values}) == 1  # type: ignore[attr-defined]
+            found.append((loads[0], values[0].value if constant else _NOT_CONSTANT))  # type: ignore[attr-defined]
+    reported = {name.id for name, _ in found}
+    for sub in walk_local(func.node):
+        test = sub.test if isinstance(sub, (ast.If, ast.IfExp, ast.While)) else None
+        if test is None:
+            continue
+        for name in condition_names(test):
+            if name.id in reported:
+                continue
+            if name.id in other or name.id not in assigns:
+                found.append((name, _NOT_CONSTANT))
+                continue
+            values = assigns[name.id]
+            if all(isinstance(v, ast.Constant) for v in values) and len({repr(v.value) for v in values}) == 1:  # type: ignore[attr-defined]
+                found.append((name, values[0].value))  # type: ignore[attr-defined]
+            else:
+                found.append((name, _NOT_CONSTANT))
+    return found
+
+
+_NOT_CONSTANT = object()
+
+
+def is_single_valued(value: object) -> bool:
+    return value is not _NOT_CONSTANT
